@@ -40,6 +40,16 @@ def apply(graph, op, arg):
         return "graph", graph.remove_nodes_from(vs(arg))
     if op == "moralize":
         return "graph", graph.moralize()
+    # in-place mutators: the same object is kept (kind "mutated")
+    if op == "add_node":
+        graph.add_node(var(arg[0]))
+        return "mutated", graph
+    if op == "add_directed_edge":
+        graph.add_directed_edge(var(arg[0]), var(arg[1]))
+        return "mutated", graph
+    if op == "add_undirected_edge":
+        graph.add_undirected_edge(var(arg[0]), var(arg[1]))
+        return "mutated", graph
     if op == "intervene":
         ivs = {-var(i) for i in arg}
         res = graph.intervene(ivs)
@@ -131,6 +141,13 @@ def main():
                     )
                     break
                 after = pg(graph)
+                if kind == "mutated":
+                    exp = norm_graph(st["g"])
+                    if after != exp or pg(keep) != before:
+                        fails.append({"beh": bi, "step": si, "order": order, "op": op, "arg": arg, "clause": "wrong-result",
+                                      "expect": exp, "got": after, "behaviour": beh})
+                        break
+                    continue
                 if after != before or not (graph == keep):
                     fails.append({"beh": bi, "step": si, "order": order, "op": op, "arg": arg,
                                   "clause": "receiver-modified", "before": before, "after": after,
